@@ -33,12 +33,14 @@ def run(ctx):
     R.check_same_scheme_guard(ctx, "E4.scheme", P, fk, "sigs")
     f = P.fns.get(fk)
     if f is not None:
-        for h, ok, detail in F.loops_push_every_iteration(f):
-            ctx.ob("E4.accumulate", fk + "/every-element", ok, "every loop iteration adds its element or leaves through Err: " + detail, where=where(f, h))
-        srcs = R.loop_sources(f)
-        cov = [R.covers_all(s, "sigs") for _, s in srcs]
+        accs = F.accumulators(P, f)
+        for a_ in accs:
+            ctx.ob("E4.accumulate", fk + "/every-element", a_["every"], "every element is added or the function leaves through Err (%s)" % a_["mode"], where=where(a_["fn"], a_["bb"]))
+        if not accs:
+            ctx.ob("E4.accumulate", fk + "/every-element", False, "no accumulation found", where=where(f))
+        cov = [R.covers_all(a_["source"], "sigs") for a_ in accs if a_["source"] is not None]
         ev = evaluate(f)
-        adds0 = [s for s in ev.sites.values() if s.callee[0] == "Add::add" and any(x.op == "index" and B._const_int(x.a[1]) == 0 for x in subterms(s.args[1]))]
+        adds0 = [s for s in ev.sites.values() if s.callee[0] == "Add::add" and any((x.op == "index" and B._const_int(x.a[1]) == 0) or (x.op == "cidx" and x.a[1] == 0) for x in subterms(s.args[1]))]
         okc = cov == ["all"] or (cov == ["tail1"] and len(adds0) >= 1)
         ctx.ob("E4.accumulate", fk + "/covers-all", okc, "loop iterates %s and sigs[0] is added %d time(s) on the exits" % (cov, len(adds0)), where=where(f))
         check_arm_purity(ctx, "E2-A", P, [f])
